@@ -387,10 +387,20 @@ class Project(MessageHandler):
         has_fs_successor: set[Any] = set()  # Tasks that are predecessors in finish-to-start deps
         has_onstart_dep: set[Any] = set()  # Tasks that have onstart dependencies (not terminal)
 
+        def mark_with_descendants(node: Any) -> None:
+            has_fs_successor.add(node.fullId)
+            for child in node.children:
+                mark_with_descendants(child)
+
         for task in self.tasks:
             if not task.leaf():
                 continue
-            deps = task.get("depends", scIdx) or []
+            # own dependencies and those inherited from enclosing containers
+            task_scenario = task.data[scIdx] if task.data else None
+            if task_scenario is not None and hasattr(task_scenario, "getAllDependencies"):
+                deps = task_scenario.getAllDependencies()
+            else:
+                deps = task.get("depends", scIdx) or []
             for dep in deps:
                 if isinstance(dep, dict):
                     pred = dep.get("task")
@@ -408,8 +418,9 @@ class Project(MessageHandler):
                         # derives END from predecessor's START, so this task is NOT terminal
                         has_onstart_dep.add(task.fullId if hasattr(task, "fullId") else None)
                     else:
-                        # Normal finish-to-start: predecessor has a successor
-                        has_fs_successor.add(pred.fullId)
+                        # Normal finish-to-start: predecessor (every task inside it, if it
+                        # is a container) has a successor
+                        mark_with_descendants(pred)
 
         def propagate_end_to_children(task: Any, container_end: Optional[Any]) -> None:
             """Recursively propagate end constraint down the task tree."""
